@@ -55,7 +55,7 @@ PROPS = {
          "the only mating move - two records, one found by the proof's author; fix a0a0e3f). The mate-in-one theorem is also stated over Spec/Rules.v (C10_mate_in_one_rules, C10_mate_in_one_forced: forced_mate_in 1 implies keeps_mate 0 of the announced move). The mate-in-two half is proved for the table-less mode only and otherwise decided by the correspondence run against the independent solver Rules.forced_mate_in (forced mate in two "
          "at depth 5 and 6, fresh table; at the end of game records a m b n a on which the filter fires; inside sessions of the real binary after a timed go that ended early); known finding C10-K1 (a quiet key of a mate "
          "in two is filtered when the record repeats) is replayed on every run.",
-         "Defect F13 (mate scores through the table counted from the wrong ply: a mate-in-three move announced as a mate in two from a fresh table; fix d5b26ce) was found by the table-on proof attempt and its ten witness positions stay in the check. mate-in-two half: a theorem only for the model's table-less mode (C10_mate_in_two_tableless_partial, with the reference value 32665 attained only by keys); with the table on it is exploration with an independent oracle. Known finding C10-K1 is listed in known_findings.json."),
+         "Defect F13 (mate scores through the table counted from the wrong ply: a mate-in-three move announced as a mate in two from a fresh table; fix d5b26ce) was found by the table-on proof attempt and its ten witness positions stay in the check. With the table ON (MateTwoTableOn*.v, partial): a ply-aware range for every node under every table in range (true only since the repair), iterations 1-3 complete outside the exit bands, a completed fourth iteration stays below the high band; iteration 5 is open. mate-in-two half: a full theorem only for the model's table-less mode (C10_mate_in_two_tableless_partial, with the reference value 32665 attained only by keys); with the table on it is exploration with an independent oracle. Known finding C10-K1 is listed in known_findings.json."),
  "C11": ("proof",
          'Theorems: fields 1-4 of the exported text = FenSpec.render (abs g) and six well-formed fields, in every reachable game; re-import succeeds with the same position and the same hash, unconditionally for every game reached by legal play; parse (render p) = p. The run also re-imports the exported text on the real code (same fields, hash and legal moves), including games of 300 and 396 plies and scripted en-passant / promotion-capture games.',
          ''),
